@@ -408,6 +408,25 @@ def shared_unpacker(text):
     return _SHARED[cls]
 
 
+def shared_workbook():
+    if "wb" not in _SHARED:
+        import atexit, os, tempfile
+        from pathlib import Path
+        from stingray.workbook import COBOL_EBCDIC_File
+        fd, path = tempfile.mkstemp(suffix=".data")
+        os.close(fd)
+        _SHARED["wb"] = COBOL_EBCDIC_File(Path(path))
+
+        def done():
+            try:
+                _SHARED["wb"].close()
+            except BaseException:
+                pass
+            os.unlink(path)
+        atexit.register(done)
+    return _SHARED["wb"]
+
+
 def observe_layout(tree, record, paths, text):
     """returns (schema_obs, top_obs, lrecl_obs, [(path, obs)], extras) from the real code"""
     from lib import exn_code
@@ -431,6 +450,17 @@ def observe_layout(tree, record, paths, text):
         lrecl_obs = [0, LocationMaker(unp, schema).from_schema().end]
     except BaseException as ex:
         lrecl_obs = [1, exn_code(ex)]
+    if not text:
+        # the record length as an application sees it: the lrecl a sheet of ONE long-lived COBOL_EBCDIC_File (opened once
+        # for the whole run, without an lrecl) computes when this schema is bound to it; reported when it differs
+        try:
+            sheet = shared_workbook().sheet("")
+            sheet.set_schema(schema)
+            wb_obs = [0, sheet.lrecl]
+        except BaseException as ex:
+            wb_obs = [1, exn_code(ex)]
+        if wb_obs != lrecl_obs:
+            lrecl_obs = wb_obs if wb_obs[0] == 0 else [1, 0]
     try:
         nav0 = unp.nav(schema, inst)
         top_obs = [0, nav0.location.end]
